@@ -107,9 +107,13 @@ func (c *Ctx) checkInviteGate(setters []fieldAccess) {
 				{"no call in progress", core.NilGuard("currentCall==nil", core.IsFieldLoad(slot), true), "a second invitation can replace the call in progress instead of being answered busy"},
 			} {
 				ok, cnt := core.GuardedByCorr(fn, site, g.g)
+				if !ok {
+					// single-exit style: the refusal is kept in a local and tested for nil later
+					ok, cnt = core.GuardedByNilCorr(fn, site, g.g)
+				}
 				r.Check(ok && cnt[0] > 0, "C15.1-invite-gate", base+" / "+g.name, c.pos(site), "", g.msg)
 				fe := core.FailEdges(fn, g.g)
-				if bad := c.effectFreeFrom(fn, fe, nil); bad != nil {
+				if bad := c.effectFreeFromNil(fn, fe); bad != nil {
 					r.Fail("C15.1b-refusal-effect-free", base+" / refusal: "+g.name, c.pos(bad), "effect after refusing the invitation: "+bad.String())
 				} else {
 					r.OK("C15.1b-refusal-effect-free", base+" / refusal: "+g.name, c.pos(site), "")
